@@ -12,7 +12,11 @@
      SResetsWindow - the scrape starts a fresh window (start := now, counter
                      := 0, admission records dropped) for the group objects it
                      visits (seeded change C01-10; the seed's own test "object
-                     older than one window" is abstracted to "always");
+                     older than one window" - now minus the instant the group
+                     object was created / last Reset at >= window - is abstracted
+                     to "always"; the witness [ms_reset] below scrapes an object
+                     11 s old with a 10 s window, so it is a run of the seeded
+                     code as well as of this over-approximation);
      SClearsMemo   - the scrape calls ResetIn: the admission records of a key
                      whose window is over are dropped (seeded change C18-10).
    Definitions and lemmas; the final statements are in Property.v. *)
@@ -121,10 +125,18 @@ Qed.
 Definition mf : forest := [(1, mkq 1 10 None None false)].
 Definition mr1 := mkr 1 [] 0.
 Definition mr2 := mkr 2 [] 0.
-(* C01-10: the window [5 s, 15 s) is full; a scrape at 6 s; a second request at 7 s *)
+Definition mr3 := mkr 3 [] 0.
+(* C01-10: r1 opens the window [5 s, 15 s) (the group object is created then);
+   r2 at 15 s opens the window [15 s, 25 s) and fills it (verdict true); a
+   scrape at 16 s - the object is 11 s old, older than one window, so the
+   seed's age test fires too; r3 at 17 s: refused on this tree (window of r2
+   full), let through after the resetting scrape - two requests let through
+   inside [15 s, 25 s), max 1.  (Audit 2: the former witness scraped at 6 s an
+   object 1 s old, which the seeded code would not have reset.) *)
 Definition ms_reset : list maction :=
-  [MAct (Inc 1 mr1 (5 * sec)); MAct (Allowed 1 mr1); MScrape (6 * sec);
-   MAct (Inc 1 mr2 (7 * sec)); MAct (Allowed 1 mr2)].
+  [MAct (Inc 1 mr1 (5 * sec)); MAct (Allowed 1 mr1);
+   MAct (Inc 1 mr2 (15 * sec)); MAct (Allowed 1 mr2); MScrape (16 * sec);
+   MAct (Inc 1 mr3 (17 * sec)); MAct (Allowed 1 mr3)].
 (* C18-10: counted at 5 s, the window is over at 15 s, the scrape comes then,
    the verdict is fetched afterwards *)
 Definition ms_clear : list maction :=
@@ -139,6 +151,12 @@ Lemma scrape_frame_clears_refuted : ~ scrape_frame SClearsMemo.
 Proof.
   intros H. destruct (H mf ms_clear init) as [_ H2]. vm_compute in H2. discriminate.
 Qed.
+
+(* the witness run: what this tree does, what the resetting scrape does *)
+Lemma reset_witness_verdicts :
+  snd (mrun mf init ms_reset) = [ONone; OBool true; ONone; OBool true; ONone; ONone; OBool false] /\
+  snd (mrun_v SResetsWindow mf init ms_reset) = [ONone; OBool true; ONone; OBool true; ONone; ONone; OBool true].
+Proof. vm_compute. split; reflexivity. Qed.
 
 (* ---------------------------------------------------------------- one request at a time *)
 
@@ -235,7 +253,9 @@ Qed.
 
 (* ---------------------------------------------------------------- correspondence *)
 
-(* res suite: schedules with scrapes *)
+(* res suite: schedules with scrapes.  NOT EVALUATED BY ANY SUITE ANY MORE:
+   suite res is Events.case_rese / run_rese (erun, which is mrun on schedules
+   without renewal / store events: C01_event_frame); nothing refers to it. *)
 Definition case_resm := (forest * list maction * list out)%type.
 Definition run_resm (k : case_resm) : option (list out) :=
   let '(f, ms, obs) := k in
